@@ -191,6 +191,7 @@ fn canon(root: &str, text: &str) -> String {
 struct Runner {
     tx: mpsc::Sender<(String, Vec<u8>)>,
     rx: mpsc::Receiver<Option<String>>,
+    hangs: u32,
 }
 
 impl Runner {
@@ -208,16 +209,23 @@ impl Runner {
                 }
             })
             .unwrap();
-        Runner { tx, rx }
+        Runner { tx, rx, hangs: 0 }
     }
     /// Ok(text) | Err("PANIC") | Err("HANG")
     fn run(&mut self, root: &str, b: &[u8]) -> std::result::Result<String, &'static str> {
+        if self.hangs >= 3 {
+            // three abandoned workers are spinning already: do not start more (the model never
+            // answers HANG, so every such line is a disagreement anyway)
+            return Err("HANG");
+        }
         self.tx.send((root.to_string(), b.to_vec())).unwrap();
         match self.rx.recv_timeout(std::time::Duration::from_secs(5)) {
             Ok(Some(s)) => Ok(s),
             Ok(None) => Err("PANIC"),
             Err(_) => {
+                let h = self.hangs + 1;
                 *self = Runner::new();
+                self.hangs = h;
                 Err("HANG")
             }
         }
